@@ -682,7 +682,10 @@ var spec = run.Spec[Case]{ID: "C06", Name: "parse", Gen: genCase, Prop: prop, Cl
 
 func TestPropParse(t *testing.T) { run.Generated(t, spec) }
 func TestRegress(t *testing.T)   { run.Regress(t, spec) }
-func TestReplay(t *testing.T)    { run.ReplayOne(t, spec) }
+func TestReplay(t *testing.T) {
+	run.ReplayOne(t, spec)
+	run.ReplayOne(t, concSpec)
+}
 
 // ---- bounded-exhaustive token sequences -----------------------------------
 
